@@ -46,11 +46,29 @@ func init() {
 		Init: func(e *Env) error { return model.SelfTestMerlin() },
 		Run:  runC13C,
 	})
+	// The same scenario as a differential instrument for C06: each task's outputs are a
+	// function of its own history only, so they must be identical on every backend whatever
+	// the schedule.  In this registration nothing schedule-dependent is logged (tasks do not
+	// log; the outputs are written after the join in task order), so the per-run digests of the
+	// assembly-Keccak build and the Go-Keccak build must be equal.
+	Register(&Workload{
+		Name:     "C06C",
+		Property: "C06",
+		Phase:    "concurrent transcript users, replayed on the assembly and the Go Keccak",
+		Variants: []string{"instrs", "instrs-purego"},
+		Rule: "the scenario of C13 phase C (2..4 tasks on clones of one origin transcript, preempted at statement-level yields inside merlin.go, the STROBE duplex and the byte wrapper around the Keccak permutation), executed for the same seeds on the default build and on -tags purego; only schedule-independent data is logged (each task's outputs, in task order, after the join); oracle: equal per-index digests across the two builds (and each output equals the Merlin model); " +
+			"non-trivial = at least one switch while the leaving task was inside a transcript operation; distinct = distinct event-log digests",
+		Real: []string{"primitives/merlin, internal/strobe incl. the Keccak byte wrapper of each backend (statement yields spliced in; the 24 rounds atomic)"},
+		Stub: []string{"goroutine scheduler (rt)", "entropy: fixed 32-byte strings"},
+		Init: func(e *Env) error { return model.SelfTestMerlin() },
+		Run:  runC13C,
+	})
 }
 
 func runC13C(e *Env, r *core.Run) {
 	t := r.T
 	g := &Gen{T: t}
+	quiet := r.Property == "C06" // differential registration: log nothing schedule-dependent
 	app := string(g.Bytes(t.W(12)))
 	origin := merlin.NewTranscript(app)
 	mOrigin := model.MNew(app)
@@ -125,7 +143,9 @@ func runC13C(e *Env, r *core.Run) {
 					r.Count(c13cKeys)
 				}
 				rt.ExitOp()
-				l.Ev("op %d kind=%d -> %s", j, op.kind, core.H(outs[i][j]))
+				if !quiet {
+					l.Ev("op %d kind=%d -> %s", j, op.kind, core.H(outs[i][j]))
+				}
 			}
 		})
 	}
@@ -133,10 +153,21 @@ func runC13C(e *Env, r *core.Run) {
 	r.AddSteps(sim.Yields)
 	r.CountN(c13cInOp, int64(sim.SwitchInOp))
 	r.Nontrivial = sim.SwitchInOp >= 1
-	r.Ev("sched policy=%d yields=%d switches=%d inop=%d hash=%x", sim.Policy(), sim.Yields, sim.Switches, sim.SwitchInOp, sim.SchedHash)
+	if quiet {
+		for i := range outs {
+			for j := range outs[i] {
+				r.Ev("task %d op %d -> %s", i, j, core.Hex8(outs[i][j]))
+			}
+		}
+	} else {
+		r.Ev("sched policy=%d yields=%d switches=%d inop=%d hash=%x", sim.Policy(), sim.Yields, sim.Switches, sim.SwitchInOp, sim.SchedHash)
+	}
 	if sim.AbortClass != "" {
 		r.Fail(sim.AbortClass, sim.AbortClass, "run aborted: %s", sim.AbortClass)
 		return
+	}
+	if quiet {
+		return // C06: the oracle is the comparison of digests across builds
 	}
 	// models, sequentially
 	for i := range scripts {
